@@ -44,6 +44,8 @@ def raw_scenarios():
                        "R raw 1 0 1 raw_post 1", "R raw 1 0 2 yield"]
     S["burst"] = ["O raw 1", "O raw 2", "S raw_reg 1", "S raw_reg 2", "S spawn 1", "T 1 raw_burst 1 70000", "T 1 raw_post 2",
                   "T 1 raw_post 1"]
+    S["sigctx"] = ["O raw 1", "O raw 2", "S raw_reg 1", "S raw_reg 2", "S spawn 1", "T 1 sigpost 10 1 0", "T 1 raw_post 2", "T 1 sigpost 10 2 1",
+                   "R raw 1 0 1 sigpost 10 1 0", "R raw 2 0 1 childpost 1"]
     S["unreg"] = ["O raw 1", "O raw 2", "S raw_reg 1", "S raw_reg 2", "S spawn 1", "S raw_post 2", "T 1 raw_post 1", "T 1 raw_post 1",
                   "R raw 2 0 1 raw_unreg 1", "R raw 2 0 1 raw_reg 1", "R raw 1 0 1 raw_post 2"]
     return S
@@ -54,6 +56,8 @@ RAW_MODES = {"efd2": [], "efd": ["F eventfd2 1 EINVAL 1"], "pipe": ["F eventfd2 
 
 def mk(sid, body, method, sched="", det=1, seed=1, faults=(), sticky=None):
     hdr = "B %s method=%s seed=%d maxwait=60 det=%d" % (sid, method, seed, det)
+    if any("sigpost" in l or "childpost" in l for l in body):
+        hdr += " sigsim=1"
     if sched:
         hdr += " sched=" + sched
     if sticky is not None:
@@ -133,6 +137,10 @@ def random_mt_script(rnd, sid, kind, method, faults):
                 L.append("T %d yield" % t)
             elif c < 0.22 and k == "raw":
                 L.append("T %d raw_burst %d %d" % (t, rnd.randint(1, nev), rnd.choice([10, 1100, 70000])))
+            elif c < 0.32 and k == "raw":
+                L.append("T %d sigpost 10 %d %d" % (t, rnd.randint(1, nev), rnd.choice([0, t])))
+            elif c < 0.38 and k == "raw":
+                L.append("T %d childpost %d" % (t, rnd.randint(1, nev)))
             else:
                 L.append("T %d %s_post %d" % (t, k, rnd.randint(1, nev)))
     for i in range(1, nev + 1):
